@@ -108,6 +108,13 @@ def roundtrips(schema, out, label, formats=("xml", "mediawiki", "tsv"), unmerged
                     os.makedirs(d)
                     schema.save_as_dataframes(os.path.join(d, "sch.tsv"), save_merged=merged)
                     r = load_schema(os.path.join(d, "sch.tsv"))
+                    # the file forms of the two text formats (own writers: encoding, line ends) must reload alike
+                    schema.save_as_xml(os.path.join(d, "f.xml"), save_merged=merged)
+                    schema.save_as_mediawiki(os.path.join(d, "f.mediawiki"), save_merged=merged)
+                    for fname in ("f.xml", "f.mediawiki"):
+                        rf = load_schema(os.path.join(d, fname))
+                        if not (rf == schema):
+                            out.bad(f"reload-differs:{fname[2:]}-file:{tag}", f"{label}: {first_difference(schema, rf)}")
                     shutil.rmtree(d, ignore_errors=True)
             except Exception as exc:  # noqa
                 from vlib.core import crash_signature
